@@ -159,5 +159,13 @@ def run(ctx):
         ok_ret = isinstance(tgt, ast.Tuple) and len(tgt.elts) == 2 and A.is_name(dc.key, tgt.elts[0].id) \
             and isinstance(dc.value, ast.Subscript) and A.is_name(dc.value.value, 'self') \
             and A.is_name(dc.value.slice, tgt.elts[1].id) and not dc.generators[0].ifs
+    # group ids are only hashed (dict keys, equality of neighbouring runs), never ordered: arbitrary hashable ids need not
+    # be comparable with each other
+    ordering = [c for c in A.walk_local(g) if isinstance(c, ast.Call) and (
+        (A.dotted(c.func) in ('sorted', 'min', 'max') and not any(kw.arg == 'key' for kw in c.keywords))
+        or (isinstance(c.func, ast.Attribute) and c.func.attr == 'sort' and not any(kw.arg == 'key' for kw in c.keywords)))]
+    rep.ob('GB', K.key(base, 'groupby', 'group-ids-are-never-ordered'), not ordering, ordering[0] if ordering else g,
+           '' if not ordering else '`%s` orders values that contain the group ids: ids that are hashable but not mutually '
+           'comparable (None next to a str, tuples of different shape) make groupby raise TypeError' % A.short(ordering[0], 50))
     rep.ob('GB', K.key(base, 'groupby', 'returns{id:self[indices]}-for-every-group'), ok_ret, rets[0] if rets else g,
            '' if ok_ret else 'groupby must return {group id: self[its indices]} for every group')
